@@ -19,3 +19,4 @@ for c in $checks; do
   SX_REPO=$sc timeout 3000 /verif/check $c > $out/.check_$c.out 2>&1; echo "== check $c against the change: exit=$?" | tee -a $out/.checks
   grep -A1 "^VIOLATION" $out/.check_$c.out | head -2 | cut -c1-300
 done
+rm -rf $sc
